@@ -46,14 +46,19 @@ def cmd_replay(a):
 
 
 def cmd_setup(_a):
+    import shutil
+    import tempfile
     spec = os.path.join(ROOT, "spec")
     bad = 0
+    jtmp = tempfile.mkdtemp(prefix="lv_sany_")          # the tools leave an empty tlc-<n> directory per start in java.io.tmpdir
+    env = dict(os.environ, JAVA_TOOL_OPTIONS=(os.environ.get("JAVA_TOOL_OPTIONS", "") + " -Djava.io.tmpdir=" + jtmp).strip())
     for f in sorted(os.listdir(spec)):
         if f.endswith(".tla"):
-            p = subprocess.run(["tla-sany", f], cwd=spec, capture_output=True, text=True)
+            p = subprocess.run(["tla-sany", f], cwd=spec, capture_output=True, text=True, env=env)
             if p.returncode != 0 or "Semantic errors" in p.stdout or "***Parse Error***" in p.stdout or "Fatal" in p.stdout:
                 print("SANY failed:", f, p.stdout[-400:])
                 bad += 1
+    shutil.rmtree(jtmp, ignore_errors=True)
     p = subprocess.run(["/venv/bin/python", "-c", "import ladim, sys; print(ladim.__file__)"], capture_output=True, text=True)
     print("ladim:", p.stdout.strip().splitlines()[-1] if p.stdout.strip() else p.stderr[-300:])
     if "/repo/" not in p.stdout:
